@@ -265,6 +265,21 @@ theorem c13_add_then_get (s : St) (x : Obj) (h : (add s x).2 = .unit) :
   unfold add at h ⊢
   split at h <;> (try split at h) <;> simp_all [getIdentifiable]
 
+/-- The same inside ONE bulk insertion: if the argument itself carries two different objects with one identifier, the call
+    is rejected at the second one and the first is the one that is stored (whatever follows is not looked at). -/
+theorem c13_update_dup_in_argument (s : St) (x y : Obj) (rest : List Obj) (hid : x.id = y.id) (hne : x.uid ≠ y.uid)
+    (hx : (add s x).2 = .unit) :
+    (update s (x :: y :: rest)).2 = .keyError ∧ getIdentifiable (update s (x :: y :: rest)).1 x.id = .obj x.uid := by
+  have hget := c13_add_then_get s x hx
+  have hdup := c13_dup_rejected_first_stays (add s x).1 x y hid hne hget
+  have h1 : update s (x :: y :: rest) = update (add s x).1 (y :: rest) := by
+    cases ha : add s x with
+    | mk s' o => simp only [ha] at hx; subst hx; simp [update, ha]
+  have h2 : update (add s x).1 (y :: rest) = ((add s x).1, .keyError) := by
+    simp [update, hdup.1]
+  rw [h1, h2]
+  exact ⟨rfl, hget⟩
+
 /-- Discarding an object that is not the stored one (same id, other object — or unknown id) is a no-op. -/
 theorem c13_discard_other_noop (s : St) (x : Obj) (h : AList.get x.id s ≠ some x.uid) :
     discard s x = (s, .unit) := by simp [discard, h]
